@@ -212,6 +212,38 @@ def order_of(arg):
     return None
 
 
+def order_arg(arg, order_params=(), std_default=False):
+    """the memory order an argument denotes, STRICTLY: a literal enumerator -> its name; a parameter of the enclosing function whose
+    type is std::memory_order -> "?<param>" (resolved over all call sites afterwards, see Walker.resolve_orders); anything else (a
+    variable, a conditional expression, a call) -> "?" = not known statically, treated as the weakest order"""
+    a = strip(arg)
+    if isinstance(a, dict) and a.get("kind") == "CXXDefaultArgExpr" and std_default:
+        return "seq_cst"       # the defaulted order of a std::atomic member function
+    if isinstance(a, dict) and a.get("kind") == "DeclRefExpr":
+        name = (a.get("referencedDecl") or {}).get("name", "")
+        if name in ORDERS:
+            return ORDERS[name]
+        if name in order_params:
+            return "?" + name
+    return "?"
+
+
+# position of the (first) memory-order argument of the atomic member functions
+ORDER_POS = {"load": 0, "store": 1, "xchg": 1, "rmw": 1, "wait": 1, "cas": 2}
+
+
+def order_meet(orders):
+    """weakest order implied by a set of possible orders (greatest lower bound in relaxed < acquire,release < acq_rel < seq_cst)"""
+    orders = list(orders)
+    if not orders or any(o.startswith("?") or o == "consume" for o in orders):
+        return "relaxed"
+    if all(o == orders[0] for o in orders):
+        return orders[0]
+    acq = all(o in ("acquire", "acq_rel", "seq_cst") for o in orders)
+    rel = all(o in ("release", "acq_rel", "seq_cst") for o in orders)
+    return "acq_rel" if acq and rel else "acquire" if acq else "release" if rel else "relaxed"
+
+
 def cas_failure(order):
     return {"acq_rel": "acquire", "release": "relaxed"}.get(order, order)
 
@@ -226,6 +258,8 @@ class FnFacts:
         self.allocs = []       # what
         self.calls = []        # (callee name, locked, seq)
         self.seq = 0
+        self.order_params = []     # names of the parameters of type std::memory_order, with their position: (index, name)
+        self.call_orders = []      # (callee name, [order_arg of every argument]) for every call made by this function
 
 
 class Walker:
@@ -251,7 +285,37 @@ class Walker:
             rec(o)
         for o in self.objs:
             self.top(o, [])
+        self.resolve_orders()
         return self
+
+    def resolve_orders(self):
+        """an order that travels through a std::memory_order parameter is the weakest of what the call sites of that function (matched
+        by name, over all walked functions) pass for it; no call site, or a call site that does not pass a literal -> relaxed"""
+        def resolve(fn_name, pname, params, depth=0):
+            idx = next((i for i, n in params if n == pname), None)
+            got = []
+            for g in self.fns:
+                for callee, aorders in g.call_orders:
+                    if callee != fn_name:
+                        continue
+                    if idx is None or idx >= len(aorders):
+                        got.append("?")          # defaulted or not passed positionally: unknown
+                        continue
+                    o = aorders[idx]
+                    if o.startswith("?") and len(o) > 1 and depth < 4:
+                        o = resolve(g.fn, o[1:], g.order_params, depth + 1)
+                    got.append(o)
+            return order_meet(got)
+
+        for f in self.fns:
+            for s in f.sites:
+                for key in ("succ", "fail"):
+                    o = s.get(key)
+                    if isinstance(o, str) and o.startswith("?"):
+                        s[key] = resolve(f.fn, o[1:], f.order_params) if len(o) > 1 else "relaxed"
+                        s["orderResolved"] = True
+                if s.get("failDerived"):
+                    s["fail"] = cas_failure(s["succ"])
 
     def loc_file(self, o):
         self.cur_file = o.get("_file_begin") or o.get("_file") or self.cur_file
@@ -328,6 +392,12 @@ class Walker:
         for c in f.get("inner", []):
             if c.get("kind") == "ParmVarDecl" and ("unique_lock" in qt(c) or "lock_guard" in qt(c)):
                 locks[c.get("name", "")] = {"held": True, "mutex": "param"}
+        pidx = 0
+        for c in f.get("inner", []):
+            if c.get("kind") == "ParmVarDecl":
+                if "memory_order" in qt(c):
+                    ff.order_params.append((pidx, c.get("name", "")))
+                pidx += 1
         ff.lk_helper = name.endswith("_lk")
         ff.has_lock_param = bool(locks)
         self.stmt(body, ff, dict(in_assert=False, locks=locks, lambda_depth=0))
@@ -480,7 +550,7 @@ class Walker:
         if ck == "DeclRefExpr":
             fname = (callee.get("referencedDecl") or {}).get("name", "")
             if fname == "atomic_thread_fence":
-                ordr = order_of(args[0]) if args else None
+                ordr = order_arg(args[0], [n for _, n in ff.order_params], std_default=True) if args else None
                 ff.sites.append({"kind": "fence", "obj": "", "succ": ordr or "seq_cst", "fail": ordr or "seq_cst",
                                  "inAssert": ctx["in_assert"]})
                 return
@@ -488,6 +558,7 @@ class Walker:
                 ff.allocs.append(fname)
             ff.seq += 1
             ff.calls.append((fname, self.any_lock_held(ctx), ff.seq))
+            ff.call_orders.append((fname, [order_arg(a, [n for _, n in ff.order_params]) for a in args]))
         if ck == "UnresolvedLookupExpr":
             fname = callee.get("name", "")
             if fname in ("make_shared", "make_unique"):
@@ -506,7 +577,10 @@ class Walker:
                 ("dependent" in btype or btype == "") and bname in KNOWN_ATOMIC_NAMES)
             if mname in ATOMIC_METHODS and is_atomic:
                 kind = ATOMIC_METHODS[mname]
-                orders = [x for x in (order_of(a) for a in args) if x]
+                # the order arguments by POSITION; an argument that is not a literal enumerator is never silently dropped
+                # (seen with the seeded change r5-c08-unlock-relaxed-build-queue: the order travelled through a parameter)
+                pos = ORDER_POS.get(kind)
+                orders = [order_arg(a, [n for _, n in ff.order_params], std_default=True) for a in args[pos:pos + 2]] if pos is not None else []
                 if kind == "cas":
                     if len(orders) >= 2:
                         succ, fail = orders[0], orders[1]
@@ -517,6 +591,8 @@ class Walker:
                 else:
                     succ = fail = orders[0] if orders else "seq_cst"
                 ff.sites.append({"kind": kind, "obj": bname, "succ": succ, "fail": fail, "inAssert": ctx["in_assert"]})
+                if kind == "cas" and len(orders) == 1 and succ.startswith("?"):
+                    ff.sites[-1]["failDerived"] = True     # single-order CAS: the failure order is derived once the order is known
                 # arguments may contain plain accesses (e.g. `_next` passed by reference as `expected`)
                 for a in args:
                     a2 = strip(a)
@@ -534,6 +610,7 @@ class Walker:
                 self.stmt(a, ff, ctx)
             ff.seq += 1
             ff.calls.append((mname, self.any_lock_held(ctx), ff.seq))
+            ff.call_orders.append((mname, [order_arg(a, [n for _, n in ff.order_params]) for a in args]))
             return
         for c in inner:
             self.stmt(c, ff, ctx)
